@@ -19,6 +19,7 @@ mod panics;
 mod parties;
 mod replica;
 mod rng;
+mod routes;
 mod tamper;
 mod wire;
 
@@ -78,7 +79,7 @@ pub fn cv_selfcheck() -> Result<(), String> {
 /// is listed under probe_gaps in the evidence (it never changes the exit code).
 pub fn expected_probes(property: &str) -> Vec<&'static str> {
     match property {
-        "C01" => vec!["node-subject-node", "known-value-predicate", "node>=3-assertions", "assertion-with-assertions", "leaf-32-byte-string", "replace-subject-with-node"],
+        "C01" => vec!["node-subject-node", "known-value-predicate", "node>=3-assertions", "assertion-with-assertions", "leaf-32-byte-string", "replace-subject-with-node", "assertion-decorated", "route-plain", "route-shuffled-repeats", "route-superset-remove", "route-replace-subject", "route-wrap-decode-detours", "route-crypto-compress-detours", "route-elide-unelide", "route-ur-hops"],
         "C02" => vec!["obscure-already-obscured-doc", "target-is-root", "empty-target-revealing"],
         "C03" => vec!["hidden-marker-scanned", "target-wrapped", "target-whole-assertion", "target-inside-wrapped", "target-is-root", "wrong-content-refused"],
         "C04" => vec!["remove-last-assertion", "duplicate-add", "replace-subject-with-node", "obscured-in-assertion-slot"],
